@@ -28,6 +28,11 @@ func c08RandomSpec(c *core.Ctx, pattern string, dns bool) *gen.Spec {
 		v := []string{"1.2.3.4", "REFUSED", "NOERROR;MX;10 mail.example.net", "new.example.net", "::1"}[c.Rng.Intn(5)]
 		s.DNSRewrite = &v
 	}
+	if !dns && s.Exception && c.Rng.Intn(10) == 0 {
+		// A special-purpose exception (reported through StealthRule): it is
+		// disabled by its twin like any other rule.
+		return &gen.Spec{Pattern: pattern, Exception: true, Stealth: true}
+	}
 	if !dns && s.Exception && c.Rng.Intn(4) == 0 {
 		s.DocOpts = []string{[]string{"elemhide", "urlblock", "genericblock", "jsinject", "document", "generichide"}[c.Rng.Intn(6)]}
 	}
